@@ -1,7 +1,7 @@
 SPEC = {
     "id": "C03",
     "harness": "c03",
-    "n": {"quick": 3000, "thorough": 80000},
+    "n": {"quick": 3300, "thorough": 80000},
     "shard": 200,
     "trusted_base": [
         "/repo hook html/tree/verif_export_c03.go (VerifC03NewCSS = newCSS with a fetcher/media type, VerifC03Precedence, VerifC03WeightLess, VerifC03Matcher)",
@@ -17,16 +17,17 @@ SPEC = {
     "codes": {"1": "the computed style does not hold the declaration the cascade specification selects",
               "3": "declarationPrecedence differs from the model's table", "4": "weight.Less differs from the model",
               "5": "the flattened rule list (order, specificities, declarations) differs from flatten_rules",
-              "6": "the computed style differs from the SPECIFICATION (documents with `&` in a top-level rule, outside the model = spec theorem)"},
+              "6": "the computed style agrees with the model but differs from the SPECIFICATION (documents with `&` in a top-level rule, outside the model = spec theorem; if it differs from the model too the code is 1)"},
     "theorems_for_kind": {
+        "imports": "C03_cascade_with_url_imports / C03_import_substitution / C03_import_contribution",
         "pair": "C03_cascade_impl_spec", "triple": "C03_cascade_impl_spec", "random": "C03_cascade_impl_spec", "corpus": "C03_cascade_impl_spec",
-        "precedence": "C03_precedence_table_correct", "less": "C03_weight_less_is_le", "flatten": "C03_flatten_preserves_order / C03_media_filter_sound",
+        "precedence": "C03_precedence_table_correct", "less": "C03_weight_less_is_le", "flatten": "C03_flatten_preserves_order / C03_media_filter_sound / C03_import_substitution",
         "topamp": "C03_cascade_unrestricted_statement (refuted: C03_top_level_amp_refuted)",
     },
-    "rule": "corpus first; declarationPrecedence exhaustively; weight.Less on random/boundary weights; flattened matcher of random sheets; every ordered pair (thorough: x all placements, and every triple) of competing declarations over origin x importance x {hint attribute, hint sheet, (0,0,1), (0,1,0), (0,1,1), (1,0,0), (2,0,0), style attribute} x placement {plain, matching @media, non-matching @media, @import, nested &, nested list} x {same sheet, different sheets}; top-level `&` against 9 rival selectors in both orders (compared with the specification); random documents (1-3 properties, 0-3 author sheets as <style>/<link>, UA, hint and user sheets, @import chains, nested rules, style and presentational attributes, ::before/::after/::marker selectors in a third of them, print/screen); non-trivial = some declaration wins on some element; distinct by Coq term",
+    "rule": "corpus first; declarationPrecedence exhaustively; weight.Less on random/boundary weights; flattened matcher of random sheets; every ordered pair (thorough: x all placements, and every triple) of competing declarations over origin x importance x {hint attribute, hint sheet, (0,0,1), (0,1,0), (0,1,1), (1,0,0), (2,0,0), style attribute} x placement {plain, matching @media, non-matching @media, @import, nested &, nested list} x {same sheet, different sheets}; import graphs (2-3 files with one competing declaration each, of one level and one specificity, importing one another and themselves; one or two top-level sheets importing them 2-4 times under different media, the same URL several times, a rule ending the prologue, a file also used as <link>); top-level `&` against 9 rival selectors in both orders (compared with the specification); random documents (1-3 properties, 0-3 author sheets as <style>/<link>, UA, hint and user sheets, @import by URL (own files, 404, 1-3 shared files that import one another / themselves and are imported several times, the same URL repeated in a prologue), nested rules, style and presentational attributes, ::before/::after/::marker selectors in a third of them, print/screen); non-trivial = some declaration wins on some element; distinct by Coq term",
 }
 MANIFEST = {
-    "text": "Coq theorem cascade_impl_spec: the model of newStyleFor/preprocessStylesheet/PreprocessDeclarationsPrelude (insertion loops guarded by weight.Less, sheet order, @import/@media/nesting flattening) returns, for every document, element or pseudo-element and property, the arg-max of (origin+importance level, specificity rank with style attribute on top and hints at zero, order of appearance) among the declarations that apply; plus precedence table, Less = <=, flatten order, media filtering, total order. The model is compared with /repo on generated documents on every run (computed style read back through unique integer values).",
+    "text": "Coq theorem cascade_impl_spec: the model of newStyleFor/preprocessStylesheet/PreprocessDeclarationsPrelude (insertion loops guarded by weight.Less, sheet order, @import/@media/nesting flattening) returns, for every document, element or pseudo-element and property, the arg-max of (origin+importance level, specificity rank with style attribute on top and hints at zero, order of appearance) among the declarations that apply; plus precedence table, Less = <=, flatten order, media filtering, total order; @import by URL with the cycle guard (sheets name their imports, the fetcher is a table: flattening = flattening of the sheet with every @import replaced by what it serves, a sheet imported twice stands twice, an import closing a cycle is dropped, the guard does not leak to sibling imports). The model is compared with /repo on generated documents on every run (computed style read back through unique integer values).",
     "note": "Trusted: Coq kernel, Go harness + hook html/tree/verif_export_c03.go, HTML/CSS parsing and the selector fragment's matching. Partial: @page, top-level `&`, invalid input are outside the model.",
     "technique": "Coq proof over executable model + vm_compute correspondence with the Go implementation",
 }
